@@ -23,11 +23,26 @@ LEVEL_NOTE = ("Trusted base: sim/world.py, sim/env.py (its connection class impl
               "reactors), sim/s5_handshake.py (segment/compression aware node on spec/segments.py, spec/frames.py). lz4/snappy are absent: "
               "stand-ins honouring the driver's wrapper contracts are registered in locally_supported_compressions / segment_codec_lz4 for "
               "the duration of a case. Interpretation of 'connection error': ConnectionException and subclasses, cassandra.connection."
-              "ProtocolError, OperationTimedOut, the server's ErrorMessage, or the socket error (OSError) a reactor passes to defunct().")
+              "ProtocolError, OperationTimedOut, the socket error (OSError) a reactor passes to defunct(), or the server's ProtocolException "
+              "(error code 0x000A: process_msg defuncts the connection with that very object and ControlConnection._try_connect catches that class); "
+              "any other decoded server ERROR surfacing raw is a violation, judged by type.")
 QUICK_WORKERS = 4
 WORKERS = 14
 
 CONNECT_TIMEOUT = 5.0
+# every error code of the protocol (spec.frames.ERR) with the extra fields its body carries
+ERROR_INFO = {'server': {}, 'protocol': {}, 'bad_credentials': {}, 'overloaded': {}, 'is_bootstrapping': {}, 'truncate': {}, 'syntax': {},
+              'unauthorized': {}, 'invalid': {}, 'config': {}, 'cdc_write_failure': {},
+              'unavailable': {'consistency': 1, 'required': 2, 'alive': 1},
+              'write_timeout': {'consistency': 1, 'received': 0, 'blockfor': 1, 'write_type': 'SIMPLE'},
+              'read_timeout': {'consistency': 1, 'received': 0, 'blockfor': 1, 'data_present': False},
+              'already_exists': {'keyspace': 'ks', 'table': 't'}, 'unprepared': {'query_id': b'\x01\x02'},
+              'function_failure': {'keyspace': 'ks', 'function': 'f', 'arg_types': ['int']},
+              'cas_write_unknown': {'consistency': 1, 'received': 0, 'blockfor': 1}}
+OTHER_ERRORS = [k for k in ERROR_INFO if k not in ('server', 'protocol', 'bad_credentials')]
+# frames whose body cannot be decoded (too short for the first fixed-size field / invalid UTF-8) or whose opcode does not exist
+GARBAGE = {'SUPPORTED': b'\x00', 'ERROR': b'\x00\x00', 'AUTHENTICATE': b'\x00', 'AUTHENTICATE_UTF8': b'\x00\x02\xff\xfe',
+           'AUTH_CHALLENGE': b'\x00\x00', 'AUTH_SUCCESS': b'\x00\x00', 'RESULT': b'\x00', 'UNKNOWN_OPCODE': b'\x00\x00\x00\x00'}
 DSE_AUTH = 'com.datastax.bdp.cassandra.auth.DseAuthenticator'
 PWD_AUTH = 'org.apache.cassandra.auth.PasswordAuthenticator'
 
@@ -66,12 +81,17 @@ def automaton(cfg, script):
         if kind == 'reset':
             out['allowed'] = {'conn_error'}
             return out
+        if kind == 'GARBAGE':
+            out['allowed'] = {'conn_error'}          # a frame the client cannot decode: the connection is unusable, at any step
+            return out
         if kind == 'ERROR':
             ek = item[1]
             if ek in ('protocol', 'protocol_unsupported'):
                 out['allowed'] = {'conn_error'}
             elif state in ('CREDS', 'AUTH'):
                 out['allowed'] = {'auth_failed'} if ek == 'bad_credentials' else {'auth_failed', 'conn_error'}
+            elif ek == 'bad_credentials':
+                out['allowed'] = {'auth_failed', 'conn_error'}     # credentials refused before any were sent: either reading is defensible
             else:
                 out['allowed'] = {'conn_error'}
             return out
@@ -200,9 +220,9 @@ def gen_item(rng, cfg, state, conform):
             return ('AUTH_SUCCESS', random_token(rng)) if r < 0.85 else ('ERROR', 'bad_credentials')
     # deviation: anything the generator is allowed to say in this state
     pool = [('READY',), ('RESULT',), ('close',), ('reset',), ('silence',), ('ERROR', 'server'), ('ERROR', 'protocol'),
+            ('ERROR', rng.choice(OTHER_ERRORS)), ('ERROR', rng.choice(OTHER_ERRORS)), ('ERROR', 'bad_credentials'),
+            ('GARBAGE', rng.choice(sorted(GARBAGE))), ('GARBAGE', rng.choice(sorted(GARBAGE))),
             ('ERROR', 'protocol_unsupported'), gen_supported(rng, cfg), ('AUTHENTICATE', PWD_AUTH), ('AUTH_SUCCESS', random_token(rng, False))]
-    if state in ('CREDS', 'AUTH'):
-        pool.append(('ERROR', 'bad_credentials'))
     if cfg['auth'] != 'plain':
         pool.append(('AUTH_CHALLENGE', random_token(rng)))
     item = rng.choice(pool)
@@ -214,7 +234,7 @@ def gen_item(rng, cfg, state, conform):
 def next_state(cfg, state, item):
     """generator-side bookkeeping only (the verdict comes from automaton())"""
     k = item[0]
-    if k in ('silence', 'close', 'reset', 'ERROR'):
+    if k in ('silence', 'close', 'reset', 'ERROR', 'GARBAGE'):
         return None
     if state == 'OPTIONS':
         return 'STARTUP' if k == 'SUPPORTED' else None
@@ -261,6 +281,7 @@ def enumerated_cases(rng):
     sup = ('SUPPORTED', {'CQL_VERSION': ['3.4.5'], 'COMPRESSION': ['lz4', 'snappy']})
     alpha = [sup, ('READY',), ('AUTHENTICATE', PWD_AUTH), ('AUTH_CHALLENGE', b'c1'), ('AUTH_SUCCESS', b'ok'), ('ERROR', 'bad_credentials'),
              ('ERROR', 'server'), ('ERROR', 'protocol'), ('RESULT',), ('close',), ('reset',), ('silence',)]
+    alpha += [('ERROR', k) for k in OTHER_ERRORS] + [('GARBAGE', k) for k in sorted(GARBAGE)]
     cfgs = []
     for v, auth in ((1, 'dict'), (1, 'none'), (4, 'none'), (4, 'stub'), (4, 'plain'), (5, 'none'), (5, 'stub'), (0x42, 'stub'), (2, 'stub')):
         for compression, local in ((True, ['lz4']), (False, ['lz4']), ('snappy', ['lz4', 'snappy'])):
@@ -270,8 +291,6 @@ def enumerated_cases(rng):
 
     def extend(cfg, script, st):
         for item in alpha:
-            if item[0] == 'ERROR' and item[1] == 'bad_credentials' and st not in ('CREDS', 'AUTH'):
-                continue
             if item[0] == 'AUTH_CHALLENGE' and cfg['auth'] == 'plain':
                 continue
             if st == 'CREDS' and item[0] == 'AUTHENTICATE':
@@ -296,8 +315,13 @@ def classify(exc):
         return 'auth_failed'
     if isinstance(exc, cassandra.OperationTimedOut):
         return 'timeout'
-    if isinstance(exc, (ConnectionException, ProtocolError, ErrorMessage, OSError)):
+    from cassandra.protocol import ProtocolException
+    if isinstance(exc, (ConnectionException, ProtocolError, ProtocolException, OSError)):
+        # ProtocolException: process_msg defuncts the connection with the server's protocol error itself (ControlConnection._try_connect
+        # catches exactly that class for the beta-version downgrade); every other server ERROR must come wrapped
         return 'conn_error'
+    if isinstance(exc, ErrorMessage):
+        return 'raw_server_error'
     return 'leak'
 
 
@@ -365,7 +389,14 @@ def run_batch(ctx, cases, seed):
             return node.reply(cstate, req, 'AUTH_SUCCESS', F.body_auth_success(item[1]))
         if k == 'RESULT':
             return node.void(cstate, req)
+        if k == 'GARBAGE':
+            v = req['version']
+            if item[1] == 'UNKNOWN_OPCODE':
+                return ('reply', F.frame(v, 0, req['stream'], 0x55, GARBAGE[item[1]]))
+            return ('reply', F.frame(v, 0, req['stream'], F.OPNUM[item[1].split('_UTF8')[0]], GARBAGE[item[1]]))
         if k == 'ERROR':
+            if item[1] in ERROR_INFO and item[1] != 'protocol':
+                return node.error(cstate, req, item[1], 'scripted %s' % item[1], **ERROR_INFO[item[1]])
             if item[1] == 'protocol_unsupported':
                 return node.error(cstate, req, 'protocol', 'Invalid or unsupported protocol version (%d); supported versions are (3/v3, 4/v4)' % req['version'])
             return node.error(cstate, req, item[1], 'scripted %s' % item[1])
@@ -418,7 +449,10 @@ def run_batch(ctx, cases, seed):
                 if st and st.get('may_fail') and not startup_reqs:
                     allowed |= ref['allowed_if_fails_here']
                 # ---- outcome
-                if outcome == 'leak':
+                if outcome == 'raw_server_error':
+                    viol.append(('server-error-surfaced-raw', 'factory raised the decoded server message %s itself (%s) instead of a ConnectionException%s' % (
+                        type(exc).__name__, str(exc)[:120], ' / AuthenticationFailed' if 'auth_failed' in ref['allowed'] else '')))
+                elif outcome == 'leak':
                     viol.append((leak_slug(cfg, script, ref, exc, len(sent_at_return)), 'factory raised %s: %s' % (type(exc).__name__, str(exc)[:200])))
                 elif outcome == 'connected' and 'connected' not in allowed:
                     if ref['eof'] and c.is_closed and sent_at_return and sent_at_return[-1][1][0] == 'close' and len(sent_at_return) == ref['consumed']:
@@ -617,8 +651,7 @@ def run(ctx):
                 "non-trivial = the script has at least two items")
     ctx.assume("lz4/snappy absent: zlib-based stand-ins registered under those names (lz4 wrapper contract: 4-byte BE length + block); the property "
                "concerns negotiation, flags and framing, not the algorithms")
-    ctx.assume("not generated because the correct client behaviour is not defined by the protocol texts: SUPPORTED without CQL_VERSION, ERROR "
-               "bad_credentials before the client sent credentials, AUTHENTICATE repeated after CREDENTIALS, challenges other than PLAIN-START for "
+    ctx.assume("not generated because the correct client behaviour is not defined by the protocol texts: SUPPORTED without CQL_VERSION, AUTHENTICATE repeated after CREDENTIALS, challenges other than PLAIN-START for "
                "PlainTextAuthenticator (it raises its own bare Exception), v1 with SASL authenticators / v2+ with credential dicts (Cluster refuses these)")
     ctx.assume("a server ERROR other than bad_credentials/protocol while authenticating may surface as AuthenticationFailed or as a connection error; "
                "READY in answer to AUTH_RESPONSE may be accepted or refused; a forced compression algorithm that is not available on both sides may "
